@@ -16,7 +16,8 @@ inductive GetErr where
   | ignored           -- `struct field %q is ignored and cannot be used`
   | tagBar            -- tag contains '|'
   | hookNil           -- ValueTransformationHook returned the zero Value
-  | unmodelled        -- outside the modelled universe (reported by the driver, never silently)
+  | unmodelled        -- outside the modelled universe; no longer produced by `get` (`get_ne_unmodelled`)
+  | panic             -- the library panics (mapstructure compares arrays of an uncomparable type)
   deriving DecidableEq, Repr, Inhabited
 
 /-- The value-transformation hook family of the correspondence check
@@ -76,43 +77,90 @@ def unwrapForStep (v : RV) : RV :=
     | none => none
     | some v' => unwrapPtrV v'
 
-/-- `mapstructure.WeakDecode(string, *T)` for the key types in the modelled universe, after
-    `coerce`'s assignable / convertible shortcuts.  `none` = the key type is outside it. -/
-def coerceKey (part : GoString) (kt : GoType) : Option (Except GetErr GoVal) :=
-  match kt with
-  | .iface => some (.ok (.str "" part))                     -- assignable
-  | .basic .string name => some (.ok (.str name part))      -- assignable / convertible
-  | .basic .bool name =>
-    some (match Strconv.parseBool part with
-      | .ok b => .ok (.bool name b)
-      | .error _ => if part.isEmpty then .ok (.bool name false) else .error .convert)
-  | .basic k name =>
+/-- `mapstructure`'s `decodeBool / decodeInt / decodeUint / decodeFloat / decodeString` on a string
+    input with `WeaklyTypedInput`, for a target of basic kind `k` (defined-type name `name`).
+    `getKind` folds Int8…Int64 into Int, Uint8…Uint64 into Uint (NOT Uintptr) and Float64 into
+    Float32; uintptr, the complex kinds and everything else end in `unsupported type`. -/
+def convOr {α : Type} (r : Except Strconv.PErr α) (f : α → GoVal) : Except GetErr GoVal :=
+  match r with
+  | .ok a => .ok (f a)
+  | .error _ => .error .convert
+
+def decodeBasic (part : GoString) (k : Kind) (name : String) : Except GetErr GoVal :=
+  if k == .string then .ok (.str name part)
+  else if k == .bool then
+    match Strconv.parseBool part with
+    | .ok b => .ok (.bool name b)
+    | .error _ => if part.isEmpty then .ok (.bool name false) else .error .convert
+  else
     let s := if part.isEmpty then GoString.ofString "0" else part
     if k.isInt then
-      some (match Strconv.parseInt s 0 k.bits with
-        | .ok i => .ok (.int k name i)
-        | .error _ => .error .convert)
-    else if k.isUint then
-      some (match Strconv.parseUint s 0 k.bits with
-        | .ok u => .ok (.uint k name u)
-        | .error _ => .error .convert)
+      convOr (Strconv.parseInt s 0 k.bits) (.int k name)
+    else if k.isUint && k != .uintptr then
+      convOr (Strconv.parseUint s 0 k.bits) (.uint k name)
     else if k == .float32 || k == .float64 then
       -- `ParseFloat(str, val.Type().Bits())` then `SetFloat`: the value is stored at the
       -- key's width; a range error (±Inf) is an error
-      some (match Strconv.parseFloat s k.bits with
-        | .ok b => .ok (.float k name b)
-        | .error _ => .error .convert)
-    else none
-  | _ => none
+      convOr (Strconv.parseFloat s k.bits) (.float k name)
+    else .error .convert
+
+/-- `(*Decoder).decode(name, part, v)` of mapstructure v1.4.1 for a string input `part`, weak mode,
+    into a FRESH (zero) value `v` of type `t`:
+    * interface: `decodeBasic` stores the string if it is assignable (empty interface only);
+    * pointer: `decodePtr` allocates the pointee and decodes into it;
+    * array `[n]e`: `decodeArray` first evaluates `valArray.Interface() == reflect.Zero(t).Interface()`,
+      a RUNTIME PANIC ("comparing uncomparable type") when `[n]e` is not comparable (reachable below a
+      pointer); then lifts the string to `[]interface{}{part}`: length 1 > n = 0 is an error,
+      otherwise element 0 is decoded and the rest stays zero;
+    * slice (only below a pointer): a string becomes `[]byte(part)` for elements of kind uint8, else
+      it is lifted to a one-element slice;
+    * struct, map ("expected a map"), func (type mismatch), chan / unsafe.Pointer / non-empty
+      interface ("unsupported type" / not assignable): error. -/
+def decodeInto (part : GoString) : GoType → Except GetErr GoVal
+  | .iface => .ok (.iface (some (.str "" part)))
+  | .basic k name => decodeBasic part k name
+  | .ptr e =>
+    match decodeInto part e with
+    | .ok v => .ok (.ptr e (some v))
+    | .error x => .error x
+  | .array n e =>
+    if !e.comparable then .error .panic
+    else if n == 0 then .error .convert
+    else
+      match decodeInto part e with
+      | .ok v => .ok (.array e (v :: List.replicate (n - 1) (zeroVal e)))
+      | .error x => .error x
+  | .slice name e =>
+    if e.kind == .uint8 then
+      let en := match e with
+        | .basic _ en => en
+        | _ => ""
+      .ok (.slice name e false (part.map fun b => .uint .uint8 en b.toNat))
+    else
+      match decodeInto part e with
+      | .ok v => .ok (.slice name e false [v])
+      | .error x => .error x
+  | .map .. => .error .convert
+  | .struct _ => .error .convert
+  | .other .. => .error .convert
+
+/-- `coerce(reflect.ValueOf(part), keyType)` of pointerstructure: the assignable / convertible
+    shortcuts (a string is assignable to `interface{}` and convertible to every string kind), then
+    `mapstructure.WeakDecode(part, new(keyType))`.  Total on every key type: a key, "couldn't convert"
+    (`.convert`) or the panic of `decodeArray` (`.panic`). -/
+def coerceKey (part : GoString) (kt : GoType) : Except GetErr GoVal :=
+  match kt with
+  | .iface => .ok (.str "" part)                     -- assignable
+  | .basic .string name => .ok (.str name part)      -- assignable / convertible
+  | kt => decodeInto part kt
 
 def fkeyEq (a b : GoVal) : Bool := keyEq Strconv.feq a b
 
 /-- `getMap` -/
 def getMap (part : GoString) (kt : GoType) (es : List (GoVal × GoVal)) : Except GetErr RV :=
   match coerceKey part kt with
-  | none => .error .unmodelled
-  | some (.error e) => .error e
-  | some (.ok key) =>
+  | .error e => .error e
+  | .ok key =>
     match es.find? (fun e => fkeyEq e.1 key) with
     | some (_, v) => .ok (some v)
     | none => .error .notFound
